@@ -285,17 +285,9 @@ def _findall(
             return None
     # **************************************************************************
     else:
-        n0print("="*80)
-        n0debug("level")
-        n0print("="*80)
-        n0debug("found_xpath_list")
-        n0debug_calc("//" + "/".join(found_xpath_list).replace('/[', '['), "found_xpath_list")
-        n0debug("parent_node")
-        n0debug("seeked_xpath_list")
-        n0debug_calc("/".join(seeked_xpath_list).replace('/[', '['), "seeked_xpath_list")
-        n0debug("parent_nodes_stack")
-        n0print("-"*80)
-        raise KeyError(f"Internal error:: looking for {seeked_xpath_list} already found: {found_xpath_list} in {type(parent_node)}'{str(parent_node)}'")
+        # a name / index step applied to a value that is neither dict nor list (a final element): nothing is below it.
+        # This is a plain miss of this branch, like a name a dict does not have; a '*' search goes on with the other branches.
+        return None
 
 
 ################################################################################
